@@ -566,3 +566,51 @@ def wrappers(rep, rule, prog, cg):
             rep.ok(rule, key, 'encoding::%s, present iff %s in both encode_raw and encoded_len' % (sorted(mods)[0] if mods else '?', e[0][2] if e else '?'), d['encode_raw'].loc())
     if n < 8:
         rep.anchor_missing(rule, 'wrapper Message impls in prost::types (found %d)' % n)
+
+
+def numeric_decode_is_total(rep, rule, prog, cg):
+    """every value an int32/int64/uint32/uint64/sint*/fixed*/float/double/bool encoder can produce must decode: the step from
+    the wire integer to the field type is a plain cast (or the zigzag / from_bits arithmetic), never a fallible conversion
+    (a negative int32 travels as a 10-byte varint >= 2^63; `i32::try_from` of it fails)"""
+    for m in NUMERIC:
+        fns = module_fns(prog, cg, m)
+        for fname, b in sorted(fns.items()):
+            if 'merge' not in fname:
+                continue
+            key = '%s|%s::%s conversion' % (rule, m, fname)
+            bad = []
+            for x in with_closures(b, cg):
+                for cs in x.calls():
+                    if not (cs.name in ('try_from', 'try_into') or re.search(r'::checked_[a-z_]+$', cs.callee)):
+                        continue
+                    # a fallible conversion applied to the wire integer itself (the u64 that decode_varint returned);
+                    # `T::try_from(x as i32)` for an enum type T is the legitimate one and takes the already cast value
+                    a0 = cs.arg(0) if cs.t['args'] else ('unknown',)
+                    direct = a0[0] == 'try' and a0[1][0] == 'call' and a0[1][1].endswith('decode_varint')
+                    if direct or 'TryFrom<u64>' in cs.callee or 'TryInto<' in cs.callee and direct:
+                        bad.append('%s (%s)' % (short(cs.callee), cs.loc()))
+            if bad:
+                rep.bad(rule, key, b.loc(), 'prost %s::%s converts the decoded integer with a fallible conversion %s: values the encoder legitimately writes (e.g. negative int32 / enum numbers, which travel sign-extended to 64 bits) are rejected on decode' % (m, fname, bad[:2]))
+            else:
+                rep.ok(rule, key, 'no fallible conversion between the wire integer and the field value', b.loc())
+
+
+def length_delimited_framing(rep, rule, prog, cg):
+    """Message::merge_length_delimited decodes exactly the bytes its length prefix announces: it goes through
+    encoding::message::merge / merge_loop, or hands Message::merge a `Buf::take(len)` view - never the whole remaining buffer"""
+    bs = [b for b in prog.bodies.values() if b.crate == 'pilota' and b.key.endswith('prost::message::Message::merge_length_delimited')]
+    key = rule + '|merge_length_delimited is bounded by its prefix'
+    if len(bs) != 1:
+        rep.anchor_missing(rule, 'prost::message::Message::merge_length_delimited')
+        return
+    b = bs[0]
+    names = [cs.callee for cs in b.calls()]
+    if any(n.endswith('encoding::message::merge') or n.endswith('encoding::merge_loop') for n in names):
+        rep.ok(rule, key, 'delegates to encoding::message::merge (merge_loop bounds the record loop by the prefix)', b.loc())
+        return
+    merges = [cs for cs in b.calls() if cs.name == 'merge' and 'Message' in cs.callee]
+    bounded = merges and all(any(x and x[0] == 'call' and x[1].endswith('::take') for a in cs.args() for x in subexprs(a)) for cs in merges)
+    if bounded:
+        rep.ok(rule, key, 'merges a Buf::take(len) view', b.loc())
+    else:
+        rep.bad(rule, key, b.loc(), 'merge_length_delimited reads the length prefix but then merges from the whole remaining buffer (calls %s): bytes after the frame (the next frame of a stream) are consumed and merged into this message' % [short(n) for n in names][:6])
